@@ -1,4 +1,4 @@
-// VERIF: rc quick_shards=4
+// VERIF: rc quick_shards=4 fuzz=intrusive_list_histories,signal_unregister_histories
 // C11 - intrusive list / signal membership equals the set of live connections.
 // Stateful model-based tests. Lists and elements live on the heap (so a destroyed head/element is
 // poisoned for ASan). Model: each list is an ordered vector of element slot ids.
